@@ -19,6 +19,8 @@ Inductive oevent :=
 | OObs (n : N) (o : option (list pin))   (* Consensus.State on n: None = error, Some = List(), sorted by cid *)
 | OTrk (n : N) (cs : list tcall)  (* every PinTracker call node n's RPC server received so far *)
 | OOffline (n : N) (l : list pin)    (* OfflineState of n's data *)
+| ORecovered (n m0 : N) (o : option (list pin))  (* R3: n's process was killed and started again on its data; it is ready and serves o;
+                                            m0 = operations acknowledged before the kill (one more may have been in flight) *)
 | OReady (n m0 : N) (o : option (list pin)).  (* C17: Consensus.State on n right after its WaitForSync returned; m0 = entries
                                          committed when the AddPeer that admitted n returned *)
 
@@ -80,6 +82,17 @@ Definition model_step (cmds : list logop) (cl : cluster) (e : oevent) : cluster 
            end)
   | OTrk n cs => (cl, multiset_eqb (calls (getn (nn n) cl)) cs)
   | OOffline n l => (cl, pins_eqb (map snd (offline (getn (nn n) cl))) l)
+  | ORecovered n m0 o =>
+      (* a new process replays the committed entries: all acknowledged ones, and possibly those in flight *)
+      let cl0 := step cl (MRestart (nn n)) in
+      let cands := map (fun m => fold_left step (repeat (MApply (nn n)) m) cl0) (seq (nn m0) (S (length (log cl) - nn m0))) in
+      match find (fun c => match view (getn (nn n) c), o with
+                           | Some s, Some l => pins_eqb (map snd s) l
+                           | None, None => true
+                           | _, _ => false end) cands with
+      | Some c => (c, true)
+      | None => (cl0, false)
+      end
   | OReady n _ o =>
       (cl, match view (getn (nn n) cl), o with
            | Some s, Some l => pins_eqb (map snd s) l
@@ -141,6 +154,11 @@ Definition spec_step (cmds : list logop) (lg : list N) (sn : list snode) (e : oe
       (lg, sn, match rev (s_labels (sgetn (nn n) sn)) with
                | [] => match l with [] => true | _ => false end
                | lb :: _ => pins_eqb (map snd (replay (firstn lb ops))) l end)
+  | ORecovered n m0 o =>                                                                (* acknowledged ops survive the crash *)
+      (lg, supd (nn n) (fun s => mksnode 0 (s_hist s) None (s_labels s)) sn,
+       match o with
+       | Some l => existsb (fun m => pins_eqb (map snd (replay (firstn m ops))) l) (seq (nn m0) (S (length lg - nn m0)))
+       | None => false end)
   | OReady n m0 o =>                                                                    (* ready: a prefix that covers everything committed before the join returned *)
       (lg, sn, match o with
                | Some l => let a := Nat.max (s_applied (sgetn (nn n) sn)) (nn m0) in
